@@ -1676,7 +1676,7 @@ func (ctx *RenderContext) contains(container, item interface{}) (bool, error) {
 	case []interface{}:
 		// For small slices, linear search is fine
 		// For larger slices (>50 items), consider a map-based approach
-		if len(c) > 50 {
+		if len(c) > 50 && allHashable(item, c...) {
 			// Create a temporary map for O(1) lookups
 			// Only worth doing for sufficiently large slices
 			tempMap := make(map[interface{}]struct{}, len(c))
@@ -1724,7 +1724,7 @@ func (ctx *RenderContext) contains(container, item interface{}) (bool, error) {
 		return strings.Contains(rv.String(), ctx.ToString(item)), nil
 	case reflect.Array, reflect.Slice:
 		// Optimize for large slices/arrays
-		if rv.Len() > 50 {
+		if rv.Len() > 50 && rv.Type().Elem().Comparable() && allHashable(item) {
 			// Same map-based optimization as above
 			tempMap := make(map[interface{}]struct{}, rv.Len())
 			for i := 0; i < rv.Len(); i++ {
@@ -1766,6 +1766,20 @@ func (ctx *RenderContext) contains(container, item interface{}) (bool, error) {
 	}
 
 	return false, nil
+}
+
+// allHashable reports whether every value can be used as a map key (a slice, a
+// map or a func cannot: hashing it panics)
+func allHashable(item interface{}, values ...interface{}) bool {
+	if item != nil && !reflect.TypeOf(item).Comparable() {
+		return false
+	}
+	for _, v := range values {
+		if v != nil && !reflect.TypeOf(v).Comparable() {
+			return false
+		}
+	}
+	return true
 }
 
 // equals checks if two values are equal
